@@ -16,7 +16,7 @@ pub static SCENARIOS: &[ScenarioDef] = &[ScenarioDef {
     build: destructor,
 }];
 
-pub const ACTIONS: i64 = 9;
+pub const ACTIONS: i64 = 10;
 
 struct TlsObj {
     action: Cell<i64>,
@@ -24,6 +24,8 @@ struct TlsObj {
     world: Cell<Option<&'static World>>,
     rc: RefCell<Option<Rc<Node>>>,
     weak: RefCell<Option<Weak<Node>>>,
+    /// two guards obtained while the thread's handle was alive, dropped by the destructor
+    parked: RefCell<Vec<circ::Guard>>,
 }
 
 impl TlsObj {
@@ -34,6 +36,7 @@ impl TlsObj {
             world: Cell::new(None),
             rc: RefCell::new(None),
             weak: RefCell::new(None),
+            parked: RefCell::new(Vec::new()),
         }
     }
     fn arm(&self, c: &Ctx, w: &'static World, action: i64, idbase: u32, chain: u32) {
@@ -50,6 +53,16 @@ impl TlsObj {
                 c.store(&w.roots[2], x, &g);
                 c.unpin(g);
                 *self.weak.borrow_mut() = Some(wk);
+            }
+            9 => {
+                // two guards of the thread's own participant, parked until the destructor
+                let mut v = self.parked.borrow_mut();
+                v.push(circ::cs());
+                v.push(circ::cs());
+                let g = c.pin();
+                let x = c.new_node(idbase + 90);
+                c.store(&w.roots[0], x, &g);
+                c.unpin(g);
             }
             8 => {
                 let g = c.pin();
@@ -118,6 +131,38 @@ impl Drop for TlsObj {
                     c.wdrop(wk);
                 }
             }
+            9 => {
+                let mut v = self.parked.borrow_mut();
+                if v.len() == 2 {
+                    let g2 = v.pop().unwrap();
+                    let g1 = v.pop().unwrap();
+                    let before = circ::verif::ebr::guard_local_state(&g1).unwrap();
+                    let addr = before.addr;
+                    drop(g1);
+                    // the other guard is still alive: the thread must still be a registered,
+                    // pinned participant, and what it loads now must be protected
+                    let st = circ::verif::ebr::guard_local_state(&g2).unwrap();
+                    if !st.pinned || st.guard_count + 1 != before.guard_count || !mon().locals.contains_key(&addr) {
+                        mon().violate(
+                            "C20",
+                            "guard-lost-protection",
+                            format!(
+                                "after dropping one of several guards in a destructor (handle_count {}) the remaining guard's participant is pinned={} guard_count={} (was {}) registered={}",
+                                before.handle_count,
+                                st.pinned,
+                                st.guard_count,
+                                before.guard_count,
+                                mon().locals.contains_key(&addr)
+                            ),
+                        );
+                    }
+                    let tg = crate::world::TG { g: g2, gid: mon().new_gid() };
+                    let s = c.load(&w.roots[0], &tg);
+                    c.sderef(s);
+                    c.sderef(s);
+                    c.unpin(tg);
+                }
+            }
             _ => {
                 let mut g = c.pin();
                 c.reactivate(&mut g);
@@ -163,7 +208,7 @@ fn destructor(p: &Params) -> Program {
         };
         // Arming may itself use the library (it builds what the destructor will release); where
         // the handle must stay untouched, only actions that need no preparation are armed.
-        let needs_prep = |x: i64| matches!(x, 4 | 6 | 8);
+        let needs_prep = |x: i64| matches!(x, 4 | 6 | 8 | 9);
         match order {
             0 => {
                 if needs_prep(a) || needs_prep(b) {
